@@ -39,6 +39,25 @@ def races(stderr):
     return out
 
 
+def repo_panic(stderr):
+    """-> the repository function at the top of the panicking goroutine's stack, or None if the panic is not the repository's."""
+    i = stderr.find("panic:")
+    if i < 0:
+        return None
+    j = stderr.find("goroutine ", i)
+    if j < 0:
+        return None
+    block = stderr[j:].split("\n\n")[0]
+    for ln in block.splitlines():
+        ln = ln.strip()
+        if ln.startswith(("runtime.", "panic(", "goroutine ", "sync.", "sort.", "internal/", "created by")) or ln.startswith("/") or not ln:
+            continue
+        if ln.startswith("github.com/vx-labs/wasp/v4/"):
+            return ln.split("(")[0].split("/")[-1]
+        return None          # the first real frame is harness or third-party code
+    return None
+
+
 def check(run):
     thorough = run.tier == "thorough"
     run.model_check("MC_IdPool", "MC_IdPool.cfg")
@@ -80,14 +99,23 @@ def check(run):
                     h["n"] = nhist
                     out.write(json.dumps(h, separators=(",", ":")) + "\n")
     stress_stats = []
+    panics = []
     for i, j in enumerate(sjobs):
         so, se = j.communicate(timeout=1800)
         if j.returncode not in (0, 66):
-            raise vlib.Inconclusive("stress driver exited %d: %s" % (j.returncode, se[-2000:]))
+            where = repo_panic(se)
+            if where is None:
+                raise vlib.Inconclusive("stress driver exited %d: %s" % (j.returncode, se[-2000:]))
+            # the broker itself panicked under ordinary concurrent client load: the panicking goroutine runs repository code
+            panics.append((where, se[se.find("panic:"):][:3000]))
+            stress_stats.append({"panic": where})
+            continue
         allraces += races(se)
         m = re.search(r"published=(\d+) acked=(\d+) connections=(\d+)", se)
         stress_stats.append(dict(zip(("published", "acked", "connections"), map(int, m.groups()))) if m else {})
     run.log("%d concurrent histories, %d stress runs %s, %d race reports" % (nhist, nstress, stress_stats, len(allraces)))
+    for where, text in panics:
+        v.add("stress:broker-panic:" + where, "the broker panicked under concurrent client load: %s" % text, {"kind": "stress-panic", "report": text})
     # ---- verdicts: races
     third = []
     for r in allraces:
@@ -107,6 +135,8 @@ def check(run):
     # ---- verdicts: post-stress obligations (TLC)
     sval = 0
     for i in range(nstress):
+        if "panic" in stress_stats[i]:
+            continue          # the run ended in a broker panic (reported above): its trace is incomplete
         tp = os.path.join(run.scratch, "stress%d.ndjson" % i)
         ok, line, detail, _ = run.validate("StressTrace", "StressTrace.cfg", tp)
         if ok:
